@@ -1,6 +1,7 @@
 (* C08 -- boolean comparators used by the correspondence (definitions only). *)
 Require Import Cherab.Common.Qx.
 Require Import Cherab.Model.C08_Text Cherab.Model.C08_Adf.
+Require Cherab.Model.C11_Round.
 From Coq Require Import Ascii String Qround.
 Open Scope Z_scope.
 
@@ -78,3 +79,80 @@ Definition located_eqb (a b : located) : bool :=
 (* the probed behaviour of _locate_adas_file on all sixteen situations *)
 Definition check_locate (obs : list (bool * bool * bool * bool * located)) : bool :=
   forallb (fun o => let '(a, b, c, d, r) := o in located_eqb (locate a b c d) r) obs && Nat.eqb (List.length obs) 16.
+
+(* ==== EXACT comparison (no tolerance): the doubles the implementation returns are reproduced bit for bit ==================
+   float() / np.fromstring are correctly rounded (round-to-nearest-even to binary64: r53, the model of Model/C11_Round.v),
+   and every documented conversion is ONE further double operation with a double constant:
+     x * 1e6        -> r53 (r53 x * 1e6)              (1e6 is a double)
+     x * 1e-6       -> r53 (r53 x * r53 (1/10^6))     (the constant 1e-6 is the double nearest to 10^-6)
+     wavelength/10  -> r53 (r53 w / 10)
+   The model's tables hold the exact decimal value v = f * x; the token value x is recovered as v / f. *)
+Definition r53 (q : Q) : Q := C11_Round.round53 q.
+Inductive fspec := FMul (f : Q) | FDiv (d : Q) | FEach (fs : list Q).
+Definition dbl_mul (f v : Q) : Q := if Qeq_bool f 1 then r53 v else r53 (r53 (v / f) * r53 f).
+Definition exact_list (sp : fspec) (model impl : list Q) : bool :=
+  match sp with
+  | FMul f => forallb2 (fun v i => Qeq_bool (dbl_mul f v) i) model impl
+  | FDiv d => forallb2 (fun v i => Qeq_bool (r53 (r53 (v * d) / d)) i) model impl
+  | FEach fs => Nat.eqb (List.length fs) (List.length model)
+                && forallb2 (fun fv i => Qeq_bool (dbl_mul (fst fv) (snd fv)) i) (combine fs model) impl
+  end.
+Fixpoint exact_lists (sps : list fspec) (model impl : list (list Q)) : bool :=
+  match sps, model, impl with
+  | [], [], [] => true
+  | sp :: sps', a :: model', b :: impl' => if exact_list sp a b then exact_lists sps' model' impl' else false
+  | _, _, _ => false
+  end.
+Definition entry_exact (spec : entry -> list fspec) (a b : entry) : bool :=
+  if keys_eqb (e_keys a) (e_keys b) then
+    if forallb2 Z.eqb (e_shape a) (e_shape b) then exact_lists (spec a) (e_vals a) (e_vals b) else false
+  else false.
+Definition table_exact (spec : entry -> list fspec) (a b : table) : bool :=
+  Nat.eqb (List.length a) (List.length b) && forallb (fun x => existsb (entry_exact spec x) b) a.
+Definition res_exact (spec : entry -> list fspec) (a b : res table) : bool :=
+  match a, b with
+  | Ok x, Ok y => table_exact spec x y
+  | Err x, Err y => err_eqb x y
+  | _, _ => false
+  end.
+
+(* which conversion each value list of each format carries *)
+Definition spec_2x (norm : Q) (_ : entry) : list fspec :=
+  [FMul 1; FMul per_cm3; FMul 1; FMul norm; FMul norm; FEach [1; per_cm3; 1; norm]%Q].
+Definition spec_12 (_ : entry) : list fspec :=
+  [FMul 1; FMul 1; FMul per_cm3; FMul 1; FMul 1; FMul cm3; FMul cm3; FMul cm3; FMul cm3; FMul cm3;
+   FEach [1; 1; per_cm3; 1; 1; cm3]%Q].
+Definition spec_11 (_ : entry) : list fspec := [FMul 1; FMul 1; FMul 1].
+Definition spec_15 (e : entry) : list fspec :=
+  match e_shape e with [] => [FDiv (10 # 1)] | _ => [FMul per_cm3; FMul 1; FMul cm3] end.
+Definition spec_tcx (_ : entry) : list fspec := [FMul per_cm3; FMul 1; FMul 1; FMul cm3].
+
+(* model = what the writer wrote: two exact rationals, compared for equality *)
+Definition spec_id (e : entry) : list fspec := map (fun _ => FMul 1) (e_vals e).
+Definition entry_same (a b : entry) : bool :=
+  if keys_eqb (e_keys a) (e_keys b) then
+    if forallb2 Z.eqb (e_shape a) (e_shape b) then forallb2 (forallb2 Qeq_bool) (e_vals a) (e_vals b) else false
+  else false.
+Definition res_same (a b : res table) : bool :=
+  match a, b with
+  | Ok x, Ok y => Nat.eqb (List.length x) (List.length y) && forallb (fun e => existsb (entry_same e) y) x
+  | Err x, Err y => err_eqb x y
+  | _, _ => false
+  end.
+
+(* ADF11 through install and back, exactly: pow is the libm value of 10**x at the doubles the parser returned (oracle,
+   bracketed as before); the table read back is r53 (pow * 1e6), pow, r53 (pow * r53 1e-6), under the stored charge *)
+Definition apply_units_exact (e : entry) : entry :=
+  match e_vals e with
+  | [ne; te; r] => {| e_keys := e_keys e; e_shape := e_shape e;
+                      e_vals := [map (fun p => r53 (p * per_cm3)) ne; te; map (fun p => r53 (p * r53 cm3)) r] |}
+  | _ => e
+  end.
+Definition check_adf11_install_exact (t : adf11_type) (model : res table) (pw readback : table) : bool :=
+  match model with
+  | Ok mt => forallb (fun x => existsb (entry_bracket x) pw) mt && Nat.eqb (List.length mt) (List.length pw)
+             && res_same (Ok (adf11_rekey t (map apply_units_exact pw))) (Ok readback)
+  | Err _ => false
+  end.
+Definition check_thermalcx_exact (charge : Z) (model : res table) (readback : table) : bool :=
+  match model with Ok t => table_exact spec_tcx (thermalcx_table charge t) readback | Err _ => false end.
